@@ -18,7 +18,11 @@ type c04Case struct {
 	Sparse     bool // long buffers: full comparison every 97 calls (and at the end), cheap comparison otherwise
 }
 
-func c04Run(cs c04Case) (fs []F) {
+func c04Run(cs c04Case) []F {
+	return core.Guard("AppendSample", func() []F { return c04RunRaw(cs) })
+}
+
+func c04RunRaw(cs c04Case) (fs []F) {
 	t := typeByName(cs.Type)
 	fail := func(kind, format string, a ...any) {
 		fs = append(fs, core.Failf("AppendSample/"+kind, "%+v: %s", cs, fmt.Sprintf(format, a...)))
@@ -120,7 +124,7 @@ func init() {
 					cases = append(cases, c04Case{Type: tn(t), C: C, P: 1500, S: 0, L: 0, N: C*1500 + 300, Sparse: true})
 					cases = append(cases, c04Case{Type: tn(t), C: C, P: 1500, S: 700, L: 100, N: C*700 + 300, Sparse: true})
 				}
-				for C := 5; C <= 70; C++ { // every channel count, short buffers
+				for _, C := range append(seq(5, 70), 255, 256, 257, 300, 1024) { // every channel count up to 70 and around 256, short buffers
 					cases = append(cases, c04Case{Type: tn(t), C: C, P: 3, S: 1, L: 0, N: 2*C + 5})
 				}
 			}
